@@ -569,11 +569,11 @@ func render(repo string, infos []*pkgInfo) []byte {
 		for _, c := range pi.ctors {
 			fn := pi.spec.prefix + "_" + c.name
 			if pi.spec.dir == "accessory" {
-				w("\t\t{Name: %q, New: func(info accessory.Info) %s { b, _ := %s(info); return b }, Probe: %s, Chain: %q, File: %q, Args: %q},\n",
-					c.name, baseT, fn, fn, chainText(c), c.file, strings.Join(c.args, ", "))
+				w("\t\t{Name: %q, New: func(info accessory.Info) %s { b, _ := %s(info); return b }, Probe: %s, Chain: %q, File: %q, Args: %q, Raw: func(info accessory.Info) interface{} { return %s.%s(%s) }},\n",
+					c.name, baseT, fn, fn, chainText(c), c.file, strings.Join(c.args, ", "), pi.name, c.name, strings.Join(c.args, ", "))
 			} else {
-				w("\t\t{Name: %q, New: func() %s { b, _ := %s(); return b }, TypeConst: %q, HasTypeConst: %v, Probe: %s, Chain: %q, File: %q},\n",
-					c.name, baseT, fn, c.typeVal, c.hasType, fn, chainText(c), c.file)
+				w("\t\t{Name: %q, New: func() %s { b, _ := %s(); return b }, TypeConst: %q, HasTypeConst: %v, Probe: %s, Chain: %q, File: %q, Raw: func() interface{} { return %s.%s(%s) }},\n",
+					c.name, baseT, fn, c.typeVal, c.hasType, fn, chainText(c), c.file, pi.name, c.name, strings.Join(c.args, ", "))
 			}
 		}
 		w("\t}\n")
